@@ -188,6 +188,10 @@ func (r *Run) Finish(cov map[string]any) {
 		os.Exit(2)
 	}
 	dir := filepath.Join(Root(), "evidence")
+	if os.Getenv("VERIF_MUTANT") != "" && os.Getenv("VERIF_SCRATCH") != "" {
+		// a self-validation run on patched sources (./selftest): not evidence about the working tree
+		dir = os.Getenv("VERIF_SCRATCH")
+	}
 	_ = os.MkdirAll(dir, 0o755)
 	if err := os.WriteFile(filepath.Join(dir, r.Property+".json"), append(b, '\n'), 0o644); err != nil {
 		fmt.Printf("INFRA-ERROR evidence write: %v\n", err)
